@@ -4,6 +4,7 @@ import (
 	"errors"
 	"fmt"
 	"log"
+	"math"
 	"os"
 	"path/filepath"
 	"sort"
@@ -242,8 +243,11 @@ func (db *DB) replayAndSetupWriteAheadLog() error {
 	}
 
 	walOpts, err := wal.NewWriteAheadLogOptions(wal.BasePath(walBasePath),
-		// we do manual rotation in lockstep with the memstore flushes, thus just set this super high to not trigger
-		wal.MaximumWalFileSizeBytes(db.memstoreMaxSize*100),
+		// we do manual rotation in lockstep with the memstore flushes, the WAL must never rotate on its own: a flush only
+		// removes the one file its rotation returned, so a segment the appender split off by itself would stay behind
+		// and be replayed - as the newest data - by the next Open. The log of one memstore generation is not bounded
+		// by the memstore size (overwrites and deletes of the same keys), so no finite multiple of it is high enough.
+		wal.MaximumWalFileSizeBytes(math.MaxUint64),
 		wal.WriterFactory(func(path string) (recordio.WriterI, error) {
 			return recordio.NewFileWriter(append(writerOpts, recordio.Path(path))...)
 		}),
